@@ -203,7 +203,8 @@ class Run:
             json.dump(ev, f, indent=1, default=str)
         try:
             import jsonschema
-            jsonschema.validate(ev, json.load(open("/root/.vp/EVIDENCE.schema.json")))
+            with open("/root/.vp/EVIDENCE.schema.json") as _f:
+                jsonschema.validate(ev, json.load(_f))
         except ImportError:
             pass
         except Exception as exc:
